@@ -1,7 +1,7 @@
 #!/usr/bin/env python3
 """
 tools/confirm_seed.py <property> <k>
-Confirms the seeded change /tmp/s/<property>/m<k> in ITS scratch worktree (/tmp/s/<property>/repo), runs the
+Confirms the seeded change $SEED_BASE/<property>/m<k> (default base /tmp/s) in ITS scratch worktree ($SEED_BASE/<property>/repo), runs the
 property's check against it in /repo (apply → ./check → undo), and files it under /verif/seeded/<property>-<k>/.
 
  1. scratch worktree clean; patch applies; touched crates + dependants still pass `cargo test` (existing suite);
@@ -12,7 +12,7 @@ property's check against it in /repo (apply → ./check → undo), and files it 
 import json, os, shutil, subprocess, sys
 
 P, K = sys.argv[1], sys.argv[2]
-S = f"/tmp/s/{P}"
+S = os.path.join(os.environ.get("SEED_BASE", "/tmp/s"), P)
 M = f"{S}/m{K}"
 W = f"{S}/repo"
 ENV = dict(os.environ, CARGO_NET_OFFLINE="true")
